@@ -301,7 +301,10 @@ func checkURIAgainstRedirects(client Client, uri string) error {
 		for _, uriGlob := range globClient.RedirectURIGlobs() {
 			isMatch, err := doublestar.Match(uriGlob, uri)
 			if err != nil {
-				return oidc.ErrServerError().WithParent(err)
+				// a malformed pattern validates nothing: the error must not be answered by a redirect
+				// to the very URI that could not be validated
+				return oidc.ErrInvalidRequestRedirectURI().WithParent(err).
+					WithDescription("The redirect_uri could not be validated against the client configuration.")
 			}
 			if isMatch {
 				return nil
